@@ -3,8 +3,9 @@
 
    Frequencies: the decimal -> f32 conversion (Rust's str::parse::<f32>, reached
    through nom's `float`) is NOT modelled; it is the Section variable [parse_f32]
-   (token -> IEEE bits), supplied by the harness.  Everything downstream of it
-   (FrequencyMatrix::new's row-sum test) is computed bit-exactly with Flocq. *)
+   (token -> binary32 value), supplied by the harness as IEEE bits.  Everything
+   downstream of it (FrequencyMatrix::new's row-sum test) is computed bit-exactly
+   with Flocq's binary32 (LMBase.IEEE.F32). *)
 From Coq Require Import List NArith ZArith Bool Arith.
 From LMBase Require Import Res ListX IEEE.
 From LMIo Require Import IoBase IoNom IoJaspar.
@@ -12,14 +13,14 @@ Import ListNotations.
 
 Section Uniprobe.
   Variable A : alphabet.
-  Variable parse_f32 : list N -> option Z.
+  Variable parse_f32 : list N -> option F32.t.
 
   (* many1(preceded(tab, float)) *)
-  Definition u_frequencies : parser (list Z) :=
+  Definition u_frequencies : parser (list F32.t) :=
     p_many1 (p_preceded (p_char 9) (p_float parse_f32)).
 
   (* terminated(separated_pair(symbol, char(':'), frequencies), line_ending) *)
-  Definition u_matrix_column : parser (nat * list Z) :=
+  Definition u_matrix_column : parser (nat * list F32.t) :=
     p_terminated (p_separated_pair (p_symbol A) (p_char 58) u_frequencies) p_line_ending.
 
   (* map(terminated(not_line_ending, line_ending), str::trim) *)
@@ -28,10 +29,10 @@ Section Uniprobe.
 
   (* build_matrix; repaired: an empty column list is Err(InvalidData);
      [buggy = true]: input[0] panics *)
-  Definition u_build_matrix (buggy : bool) (cols : list (nat * list Z)) : res (list (list Z)) :=
+  Definition u_build_matrix (buggy : bool) (cols : list (nat * list F32.t)) : res (list (list F32.t)) :=
     match cols with
     | [] => if buggy then Panic 40 else Err EInvalid
-    | _ => j16_build_matrix A 0%Z cols
+    | _ => j16_build_matrix A F32.zero cols
     end.
 
   (* FrequencyMatrix::new: every row r must satisfy (r.iter().sum::<f32>() - 1.0).abs() < 0.01.
@@ -40,10 +41,10 @@ Section Uniprobe.
   Definition f32_one : F32.t := F32.of_bits 1065353216.       (* 1.0f32  = 0x3F800000 *)
   Definition f32_tol : F32.t := F32.of_bits 1008981770.       (* 0.01f32 = 0x3C23D70A *)
 
-  Definition row_ok (row : list Z) : bool :=
-    F32.lt (F32.abs (F32.sub (F32.sum_from F32.nzero (map F32.of_bits row)) f32_one)) f32_tol.
+  Definition row_ok (row : list F32.t) : bool :=
+    F32.lt (F32.abs (F32.sub (F32.sum_from F32.nzero row) f32_one)) f32_tol.
 
-  Definition freq_new (m : list (list Z)) : res (list (list Z)) :=
+  Definition freq_new (m : list (list F32.t)) : res (list (list F32.t)) :=
     if forallb row_ok m then Ok m else Err EInvalid.
 
   (* ---------- the Reader state machine (uniprobe/mod.rs) ---------- *)
@@ -78,13 +79,13 @@ Section Uniprobe.
 
   (* the `loop` collecting matrix columns *)
   Inductive cols_res : Type :=
-  | CDone (cols : list (nat * list Z)) (buf : list N) (line : bool) (s : stream)
+  | CDone (cols : list (nat * list F32.t)) (buf : list N) (line : bool) (s : stream)
   | CErr (buf : list N) (s : stream)       (* read_line error inside the loop *)
   | CPanic (site : nat)
   | CFuel.
 
   Fixpoint u_columns (fuel : nat) (buf : list N) (line : bool) (s : stream)
-           (acc : list (nat * list Z)) : cols_res :=
+           (acc : list (nat * list F32.t)) : cols_res :=
     match fuel with
     | 0 => CFuel
     | S fuel' =>
@@ -96,7 +97,7 @@ Section Uniprobe.
         | FErr b s' => CErr b s'
         | FLine b s' =>
             match u_matrix_column b with
-            | POk _ col => u_columns fuel' [] false s' (col :: acc)
+            | POk _ _ col => u_columns fuel' [] false s' (col :: acc)
             | PErr _ | PFail _ => CDone (rev acc) b true s'
             | PPanic k => CPanic k
             | PFuel => CFuel
@@ -104,7 +105,7 @@ Section Uniprobe.
         | FEof b s' =>
             (* Ok(0) => break: the (empty) buffer is parsed as a column all the same *)
             match u_matrix_column b with
-            | POk _ col => u_columns fuel' [] false s' (col :: acc)
+            | POk _ _ col => u_columns fuel' [] false s' (col :: acc)
             | PErr _ | PFail _ => CDone (rev acc) b false s'
             | PPanic k => CPanic k
             | PFuel => CFuel
@@ -114,7 +115,7 @@ Section Uniprobe.
 
   Definition cols_fuel (s : stream) : nat := S (S (S (length (stream_bytes s)))).
 
-  Definition u_next (buggy : bool) (st : ustate) : ustate * res (option (record Z)) :=
+  Definition u_next (buggy : bool) (st : ustate) : ustate * res (option (record F32.t)) :=
     let filled :=
       if uline st then FLine (ubuf st) (ustream st)
       else u_fill (fill_fuel (ustream st)) (ubuf st) (ustream st) in
@@ -127,7 +128,7 @@ Section Uniprobe.
         | PErr _ | PFail _ => ({| ubuf := b; uline := true; ustream := s |}, Err ENom)
         | PPanic k => (st, Panic k)
         | PFuel => (st, OutOfFuel)
-        | POk _ id =>
+        | POk _ _ id =>
             match u_columns (cols_fuel s) [] false s [] with
             | CFuel => (st, OutOfFuel)
             | CPanic k => (st, Panic k)
@@ -151,7 +152,7 @@ Section Uniprobe.
     end.
 
   Fixpoint u_run (buggy : bool) (fuel : nat) (stop_err : bool) (st : ustate)
-    : list (res (option (record Z))) :=
+    : list (res (option (record F32.t))) :=
     match fuel with
     | 0 => [OutOfFuel]
     | S fuel' =>
@@ -164,11 +165,11 @@ Section Uniprobe.
     end.
 
   (* Reader::new(stream) then next() until End or the first error *)
-  Definition uniprobe_read (s : stream) : list (res (option (record Z))) :=
+  Definition uniprobe_read (s : stream) : list (res (option (record F32.t))) :=
     u_run false (S (S (length (stream_bytes s)))) true (u_new s).
 
   (* the first [calls] outcomes when the caller goes on after errors *)
-  Definition uniprobe_calls (buggy : bool) (calls : nat) (s : stream) : list (res (option (record Z))) :=
+  Definition uniprobe_calls (buggy : bool) (calls : nat) (s : stream) : list (res (option (record F32.t))) :=
     firstn calls (u_run buggy (S calls) false (u_new s)).
 End Uniprobe.
 
